@@ -571,8 +571,12 @@ static void *cx_log(int hid, char *buff, void *state)
     cx_handler_calls++;
     cx_token += 16;
     if (cx_nev >= CX_MAXEV) { cx_ev_overflow = 1; return (void *) cx_token; }
+    /* every fifth event of a parse returns NULL as the new state (a legal state value: the next call must receive NULL, and an
+     * END returning NULL must overwrite the enclosing context's state) */
+    uintptr_t out = (cx_nev % 5 == 2) ? 0 : cx_token;
+    if (!out) vh_count("handler_returned_null_state", 1);
     cx_ev *e = &cx_evs[cx_nev++];
-    e->ctx = hid; e->sin = (uintptr_t) state; e->sout = cx_token;
+    e->ctx = hid; e->sin = (uintptr_t) state; e->sout = out;
     if (buff && *buff == SPIFCONF_BEGIN_CHAR) { e->kind = 'B'; e->off = e->len = 0; }
     else if (buff && *buff == SPIFCONF_END_CHAR) { e->kind = 'E'; e->off = e->len = 0; }
     else {
@@ -583,7 +587,7 @@ static void *cx_log(int hid, char *buff, void *state)
         if (l) memcpy(cx_text + cx_ntext, buff, l);
         cx_ntext += l;
     }
-    return (void *) cx_token;
+    return (void *) out;
 }
 static void cx_expect(int ctx, char kind, const char *text, size_t l)
 {
@@ -660,7 +664,8 @@ typedef struct {
     int stack[600]; int depth;          /* context ids; stack[0] = 0 (null) */
     cx_model *xm;                       /* expansion model (env, store); may be NULL when no metacharacters are generated */
     int weak; const char *weak_why;     /* the well-formed-population assumptions were broken */
-    long lines, texts, begins, ends, surplus_ends, includes, comments, unknown_begins, max_depth, max_fdepth, pct_lines;
+    long lines, texts, begins, ends, surplus_ends, includes, comments, unknown_begins, max_depth, max_fdepth, pct_lines, cyclic_includes;
+    const void *open_files[300]; int n_open;    /* files being read right now: an %include of one of them is refused (each line exactly once) */
 } cx_lmodel;
 
 static void cx_lm_weak(cx_lmodel *lm, const char *why) { if (!lm->weak) { lm->weak = 1; lm->weak_why = why; } }
@@ -672,9 +677,11 @@ static void cx_model_file(cx_lmodel *lm, const cx_file *f, int fdepth)
     const char *p = f->data.b, *end = f->data.b + f->data.n;
     if (fdepth > lm->max_fdepth) lm->max_fdepth = fdepth;
     if (fdepth > 250) { cx_lm_weak(lm, "include depth beyond the 8-bit file index"); return; }
+    if (lm->n_open < 300) lm->open_files[lm->n_open] = f;
+    lm->n_open++;
     /* first line: magic, consumed by the opener */
     const char *nl = memchr(p, '\n', (size_t) (end - p));
-    if (!nl) { cx_lm_weak(lm, "file without a complete magic line"); return; }
+    if (!nl) { cx_lm_weak(lm, "file without a complete magic line"); lm->n_open--; return; }
     p = nl + 1;
     while (p < end) {
         nl = memchr(p, '\n', (size_t) (end - p));
@@ -703,7 +710,10 @@ static void cx_model_file(cx_lmodel *lm, const cx_file *f, int fdepth)
                 if (cx_has_meta(line + 1)) cx_lm_weak(lm, "metacharacters in an include line");
                 cx_file *inc = cx_file_find(name);
                 lm->includes++;
-                if (inc) cx_model_file(lm, inc, fdepth + 1); else cx_lm_weak(lm, "include of a file that was not generated");
+                int already_open = 0;
+                for (int q = 0; inc && q < lm->n_open && q < 300; q++) if (lm->open_files[q] == inc) already_open = 1;
+                if (already_open) { lm->cyclic_includes++; vh_count("cyclic_include_lines", 1); }      /* refused: nothing is delivered for this line */
+                else if (inc) cx_model_file(lm, inc, fdepth + 1); else cx_lm_weak(lm, "include of a file that was not generated");
             } else if (!strncasecmp(w, "preproc ", 8)) {
                 cx_lm_weak(lm, "preproc");
             } else {
@@ -740,6 +750,7 @@ static void cx_model_file(cx_lmodel *lm, const cx_file *f, int fdepth)
         }
         free(line);
     }
+    lm->n_open--;
 }
 static void cx_lm_init(cx_lmodel *lm, const cx_ctxs *ctxs, cx_model *xm, int entry_depth_ids[], int entry_depth)
 {
@@ -824,6 +835,7 @@ typedef struct {
     const cx_ctxs *ctxs;
     int n_reg, expansion;
     int depth, target_depth, ramping, files_left, chain_left, max_level, next_file_no;
+    int cycles;                         /* also generate %include lines that name a file already being read */
     long lines_emitted, line_budget;
     char magic[64];
 } cx_gen_t;
@@ -919,9 +931,11 @@ static void cx_gen_include(cx_file *f, int level)
     cx_gen_line(f, line);
     cx_gen_file(inc, level + 1);
 }
+static cx_file *cx_gen_anc[16];        /* files being generated, by include level */
 static void cx_gen_file(cx_file *f, int level)
 {
     cx_buf_adds(&f->data, cx_g.magic);
+    if (level < 16) cx_gen_anc[level] = f;
     if (level > cx_g.max_level) cx_g.max_level = level;
     int n = (int) vh_range(0, level == 0 ? 40 : 14);
     int chain_here = cx_g.chain_left > 0;          /* this file must include the next link of the chain */
@@ -939,6 +953,9 @@ static void cx_gen_file(cx_file *f, int level)
         else if (r < 66) { if (cx_g.depth < cx_g.target_depth + 2 && cx_g.depth < 255) cx_gen_begin(f); else cx_gen_text(f); }
         else if (r < 80) { if (cx_g.depth > 0) cx_gen_end(f); else if (vh_coin(25)) cx_gen_end(f); else cx_gen_text(f); }
         else if (r < 86 && cx_g.files_left > 0 && level < 6 && !chain_here) { cx_g.files_left--; cx_gen_include(f, level); }
+        else if (r < 87 && cx_g.cycles && level < 16) {     /* %include of the file itself or of a file that is including it: refused, delivered once */
+            char l[80]; snprintf(l, sizeof l, "%%include %s", cx_gen_anc[vh_below((uint64_t) level + 1)]->name); cx_gen_line(f, l);
+        }
         else if (r < 89 && cx_g.expansion) { char l[64]; snprintf(l, sizeof l, "%%put(k1 v%d)", (int) vh_below(1000)); cx_gen_line(f, l); }
         else cx_gen_text(f);
     }
